@@ -346,7 +346,7 @@ def record_c15(case):
 # residues are never closer than 2 A unless a feature places them so.
 
 _OFFS = [(0, 0, 0), (1371, -212, 405), (-604, 1290, 377), (512, 777, -1301), (-1190, -930, -642),
-         (1405, 1251, -911), (-1633, 208, 1202), (377, -1544, -903)]
+         (1405, 1651, -511), (-1633, 208, 1202), (377, -1544, -903)]
 _STEP = (7309, 433, -917)
 _ORIGINS = [(12345, -6789, 1011), (-104321, 88007, -15550), (301, 9, -99001), (987654, -432100, 123456)]
 _ALT_SHIFT = (180, -200, 140)       # 0.303 A
@@ -421,14 +421,14 @@ def build_model(rng, m, feats, *, chains=1, icn="?", ocn="?", origin=None, allow
     carry = None        # a clash partner owed to the first atom of the next residue
     for r, res in enumerate(residues):
         o = _add(origin, (r * _STEP[0], r * _STEP[1], r * _STEP[2]))
-        names = rng.sample(_NAMES[:18], 4) if not (res["het"] and res["rn"] == "MG") else ["MG"] + rng.sample(_NAMES[:18], 3)
+        names = rng.sample(_NAMES[:18], 5) if not (res["het"] and res["rn"] == "MG") else ["MG"] + rng.sample(_NAMES[:18], 4)
         if rng.random() < 0.15:
             names[3] = rng.choice(["H5''", "HO5'"])
         feat = feats[r] if r < len(feats) else "plain"
         k = 0
         block_b = []
         if carry is not None:
-            lines.append(_line(m, res, names[3], carry[0], carry[1]))
+            lines.append(_line(m, res, names[4], carry[0], carry[1]))
             carry = None
         p0 = _add(o, _OFFS[0])
         if feat == "plain":
@@ -452,7 +452,8 @@ def build_model(rng, m, feats, *, chains=1, icn="?", ocn="?", origin=None, allow
             else:
                 block_b.append(_line(m, res, names[0], _add(p0, _REP_SHIFT), ob))   # repeated after the other atoms
         elif feat.startswith("clash") or feat.startswith("miss"):
-            d = int(feat[5:8]) if feat[5:8].isdigit() else (int(feat[4:7]) if feat[4:7].isdigit() else 300)
+            digits = "".join(ch for ch in feat if ch.isdigit())
+            d = int(digits) if digits else 300
             rel = feat.split("-")[-1]
             mine = rng.choice([50, 80])
             other = {"lower": mine - 30, "higher": mine + 20, "tie": mine}.get(rel, mine - 30)
